@@ -70,13 +70,15 @@ Proof. exact cast_choice_optimal. Qed.
 Print Assumptions C11_optimal_cast.
 
 (** virtual_<shared_ptr<T>> and virtual_<const shared_ptr<T>&> do NOT make the
-    optimal choice: they test requires_dynamic_cast<T*, shared_ptr<D>> and so
-    use dynamic_pointer_cast whenever the classes differ.  This costs time, not
-    correctness ([C11_virtual_arg] covers both flavours, and
-    [C11_static_dynamic_agree] says they cannot differ). *)
-Theorem C11_optimal_cast_shared_partial : forall H f k B D,
-  uses_optimal_cast k = false ->
-  (cast_choice H f k B D = CStatic <-> B = D).
+    optimal choice: they test requires_dynamic_cast<T*, shared_ptr<D>> (resp.
+    <T*, const shared_ptr<D>&>) and so use dynamic_pointer_cast whenever the
+    classes differ (resp. always).  This costs time, not correctness
+    ([C11_virtual_arg] covers both flavours, and [C11_static_dynamic_agree]
+    says they cannot differ).  FULL statement that does not hold for them:
+    cast_choice = CStatic <-> static_cast_ok. *)
+Theorem C11_optimal_cast_shared_partial : forall H f B D,
+  (cast_choice H f KShared B D = CStatic <-> B = D) /\
+  cast_choice H f KCShared B D = CDynamic.
 Proof. exact cast_choice_shared. Qed.
 Print Assumptions C11_optimal_cast_shared_partial.
 
